@@ -5,6 +5,10 @@ from __future__ import annotations
 import core
 
 
+class Domain(Exception):
+    """raised by a law for an input outside its domain (never a failure)"""
+
+
 def P():
     from packaging.specifiers import InvalidSpecifier, Specifier, SpecifierSet
     from packaging.version import InvalidVersion, Version
